@@ -35,7 +35,9 @@ for v in V:
     open(d+'/demonstration.md','w').write('# '+v['id']+'\n\n'+v['what']+'\n\nThe demonstration (input, observed and expected behaviour, suite run) is item-for-item in '
         '`/verif/notes/audit-round3/report-'+v['property']+'.md`; the edit is reproduced from there by `scripts/store_audit.py`.\n')
     meta={'property':v['property'],'kind':v['kind'],
-          'origin':'rule audit round 3: demonstration by an audit sub-agent that could read the checker (not a fresh property-text-only agent); kept as regression material for the rule it led to',
+          'origin':('rule audit round 3, re-probe: near-variant written by an agent that saw the audit report, the status file and the revised checker binary (not its source; not a fresh property-text-only agent); kept as regression material for the rule it led to'
+                    if 're-probe' in v['what'] else
+                    'rule audit round 3: demonstration by an audit sub-agent that could read the checker (not a fresh property-text-only agent); kept as regression material for the rule it led to'),
           'what':v['what'],'demo_env':{},'round':'audit3',
           'confirmed_by_me':{'repo_suite_with_change':'go build ./... && go test -count=1 ./... : '+suite,'checks_run':'utilcheck -repo <copy with patch> -prop all -no-evidence','checks_that_fired':fired}}
     if v['kind']=='breaking': meta['expected_to_fire']=fired
